@@ -348,7 +348,47 @@ func (m *Model) RunValSiblings(s *Sink, rule string) {
 			}
 			overAll = overAll && src
 		}
-		if okLoop && recursive && overAll {
+		// the result starts empty: appending to a pre-sized slice would prepend zero values
+		startsEmpty := true
+		if okLoop {
+			for _, in := range loops[0].header.Instrs {
+				phi, ok := in.(*ssa.Phi)
+				if !ok || phi.Comment == "rangeindex" {
+					continue
+				}
+				fedByAppend := false
+				for _, e := range phi.Edges {
+					if call, ok := e.(*ssa.Call); ok {
+						if bi, ok := call.Call.Value.(*ssa.Builtin); ok && bi.Name() == "append" {
+							fedByAppend = true
+						}
+					}
+				}
+				if !fedByAppend {
+					continue
+				}
+				for i, e := range phi.Edges {
+					if loops[0].body[phi.Block().Preds[i]] {
+						continue
+					}
+					switch x := e.(type) {
+					case *ssa.Const:
+						if !x.IsNil() {
+							startsEmpty = false
+						}
+					case *ssa.MakeSlice:
+						if k, ok := x.Len.(*ssa.Const); !ok || k.Int64() != 0 {
+							startsEmpty = false
+						}
+					default:
+						startsEmpty = false
+					}
+				}
+			}
+		}
+		if okLoop && recursive && overAll && !startsEmpty {
+			s.Violation(rule, key, m.Pos(fn.Pos()), "%s appends the converted elements to a slice that does not start empty: the Go value handed to custom functions has extra zero elements in front", fnKey(fn))
+		} else if okLoop && recursive && overAll {
 			s.OK(rule, key, m.Pos(fn.Pos()), "one loop over %s with no early exit, each element converted with Val()", c.field)
 		} else {
 			s.Violation(rule, key, m.Pos(fn.Pos()), "%s does not convert every element of %s with Val(): nested values would reach custom functions as internal objects or be dropped", fnKey(fn), c.field)
